@@ -178,11 +178,11 @@ func jobs() map[string]job {
 			return Kitchen("x}*{color:x", "data:text/html,<script>alert(1)</script>", "x}*{color:x, serif", templ.Attributes{"data-x": "2"})
 		}, -1, false, false, false},
 		// streamed responses (flushable writers) next to plain ones
-		"streamA":  {name: "streamA", mk: func() templ.Component { return Page("alice", []string{"a1"}) }, failAt: -1, stream: true},
-		"streamB":  {name: "streamB", mk: func() templ.Component { return Small("b") }, failAt: -1, stream: true},
+		"streamA": {name: "streamA", mk: func() templ.Component { return Page("alice", []string{"a1"}) }, failAt: -1, stream: true},
+		"streamB": {name: "streamB", mk: func() templ.Component { return Small("b") }, failAt: -1, stream: true},
 		// pages written in Go: library components rendered with a context that never went through InitializeContext
-		"codeA": {name: "codeA", failAt: -1, mk: func() templ.Component { return codePage("alice") }},
-		"codeB": {name: "codeB", failAt: -1, mk: func() templ.Component { return codePage("bob") }},
+		"codeA":    {name: "codeA", failAt: -1, mk: func() templ.Component { return codePage("alice") }},
+		"codeB":    {name: "codeB", failAt: -1, mk: func() templ.Component { return codePage("bob") }},
 		"bigFail":  {false, "bigFail", func() templ.Component { return Big("FFFF") }, 40, false, false, false},
 		"pageFail": {false, "pageFail", func() templ.Component { return Page("carol", []string{"c1"}) }, 70, false, false, false},
 	}
@@ -459,7 +459,7 @@ func main() {
 	var viols []viol
 	capped := []string{}
 	for _, sc := range scenarios {
-		st := vsched.Explore(vsched.ExploreConfig{Opts: vsched.Options{MaxSteps: 20000}, Bound: bound, Deadline: deadline, MaxExecutions: run.Pick(250000, 5000000), StateCaching: true}, sc.build(ref))
+		st := vsched.Explore(vsched.ExploreConfig{Opts: vsched.Options{MaxSteps: 20000}, Bound: bound, Deadline: deadline, GuaranteedBound: 1, MaxExecutions: run.Pick(250000, 5000000), StateCaching: true}, sc.build(ref))
 		if st.Diverged != "" {
 			vlib.Fatal("scenario %q: %s", sc.name, st.Diverged)
 		}
